@@ -302,6 +302,11 @@ func TestProp(t *testing.T) {
 			// one step that has an `executor` key saying nothing and nothing else to execute
 			ch.StepKinds[rapid.IntRange(0, len(ch.StepKinds)-1).Draw(t, "hollowStep")] = rapid.IntRange(7, 10).Draw(t, "hollowKind")
 		}
+		if rapid.IntRange(0, 7).Draw(t, "signalName") == 0 {
+			// the first step stops on a signal named in one of many spellings
+			ch.Extras |= 128
+			ch.Signal = rapid.SampledFrom(yamlgen.SignalNames).Draw(t, "signal")
+		}
 		c := Case{Choice: &ch, Muts: yamlgen.GenMutations(t, 3)}
 		check(t, c, "grammar")
 	})
